@@ -278,6 +278,9 @@ func (m *model) step(h int64, ops []op, res []txOutcome, prev, cur *obs) {
 		}
 		payer := o.payer(w).Addr.String()
 		fee := new(big.Int).Mul(big.NewInt(r.GasUsed), big.NewInt(1000000000))
+		if o.govUser {
+			fee = new(big.Int) // PROPOSAL_FINALIZE only meters gas, nothing is charged
+		}
 		toPool(payer, fee)
 		if m.feesPaid[payer] == nil {
 			m.feesPaid[payer] = new(big.Int)
